@@ -8,9 +8,9 @@ Implementation-side oracle (real code + plain Python), per case (network x tree 
   * linear_to_ssa / ssa_to_linear are mutually inverse on valid paths (steps as sets), incl.
     single-tensor steps, k-ary steps and incomplete paths, and denote the same merges;
   * edge_path_to_ssa / edge_path_to_linear on permutations and sub-sequences of the indices give
-    a valid path, each step contracting exactly the current tensors that carry the index
-    (independent leaf-set simulation), steps with < 2 carriers skipped; repeated / unknown
-    index -> KeyError on both sides.
+    a valid path whose multi-tensor steps merge, in order, exactly the current tensors that carry
+    the index (independent leaf-set simulation; single-tensor renaming steps are tolerated);
+    repeated / unknown index -> KeyError on both sides.
 Tie to the Lean model (Model/Paths.lean):
   (E) converter outputs; get_ssa_path / get_path recomputed by the model *from the real
       traversal*; from_path parents;
@@ -185,6 +185,10 @@ def make_order(kind, seed, tree):
     table = {}
     if kind == "dfs":
         return None, table
+    if kind == "surface_order":  # the literal string takes its own branch in _traverse_ordered
+        for node in tree.children:
+            table[frozenset(node)] = [tree.surface_order(node)]
+        return "surface_order", table
     rg = random.Random(seed)
 
     def raw(node):
@@ -346,24 +350,36 @@ def run_path_case(case):
 
 
 def spec_edge(edge_path, inputs):
-    """independent leaf-set simulation; returns path or 'KeyError'"""
-    cur = {i: frozenset([i]) for i in range(len(inputs))}
+    """independent leaf-set simulation: for every index with >= 2 carriers, the sorted list of the
+    carriers' leaf sets (what is merged at that moment); 'KeyError' for a repeated/unknown index"""
+    cur = [frozenset([i]) for i in range(len(inputs))]
     gone = set()
     known = {ix for t in inputs for ix in t}
-    nxt = len(inputs)
-    path = []
+    out = []
     for ix in edge_path:
         if ix in gone or ix not in known:
             return "KeyError"
         gone.add(ix)
-        carriers = sorted(s for s, leaves in cur.items() if any(ix in inputs[l] for l in leaves))
+        carriers = [x for x in cur if any(ix in inputs[l] for l in x)]
         if len(carriers) < 2:
             continue
-        u = frozenset().union(*[cur.pop(s) for s in carriers])
-        cur[nxt] = u
+        cur = [x for x in cur if x not in carriers] + [frozenset().union(*carriers)]
+        out.append(sorted(sorted(x) for x in carriers))
+    return out
+
+
+def merge_detail(path, n):
+    """for every step of >= 2 ids of an ssa path: the sorted list of the leaf sets it consumes
+    (single-tensor steps only rename a tensor and are ignored)"""
+    nodes = {i: frozenset([i]) for i in range(n)}
+    out, nxt = [], n
+    for s in path:
+        m = [nodes.pop(i) for i in s]
+        nodes[nxt] = frozenset().union(*m)
         nxt += 1
-        path.append(carriers)
-    return path
+        if len(s) > 1:
+            out.append(sorted(sorted(x) for x in m))
+    return out
 
 
 def run_edge_case(case):
@@ -380,15 +396,18 @@ def run_edge_case(case):
         lin = "KeyError"
     obs.update(ssa=ssa, lin=lin)
     want = spec_edge(case["edge_path"], case["inputs"])
-    if ssa != want:
-        return ("edge_path_to_ssa-vs-definition", [ssa, want]), obs
-    if want == "KeyError":
+    n = len(inputs)
+    if want == "KeyError" or ssa == "KeyError":
+        if ssa != want:
+            return ("edge_path_to_ssa-KeyError-mismatch", [ssa, want]), obs
         if lin != "KeyError":
             return ("edge_path_to_linear-no-KeyError", lin), obs
         return None, obs
-    n = len(inputs)
     if not valid_ssa(ssa, n):
         return ("edge_path_to_ssa-invalid", ssa), obs
+    obs["detail"] = merge_detail(ssa, n)
+    if obs["detail"] != want:
+        return ("edge_path_to_ssa-vs-definition", [ssa, want]), obs
     if lin == "KeyError" or not valid_linear(lin, n) or merges_linear(lin, n) != merges_ssa(ssa, n):
         return ("edge_path_to_linear-other-merges", [lin, ssa]), obs
     return None, obs
@@ -449,9 +468,15 @@ def correspond(ctx, drv, case, obs):
                 bad.append("from_path parents")
     else:
         a = drv.call("c10.edge_to_ssa", edge_path=case["edge_path"], inputs=case["inputs"])
-        got = norm(a["path"]) if a.get("ok") else "KeyError"
-        if got != (obs["ssa"] if obs["ssa"] == "KeyError" else norm(obs["ssa"])):
-            bad.append("edge_path_to_ssa")
+        n = len(case["inputs"])
+        if obs["ssa"] == "KeyError":
+            if a.get("ok"):
+                bad.append("edge_path_to_ssa (KeyError)")
+        elif not a.get("ok") or not valid_ssa(a["path"], n) or merge_detail(a["path"], n) != obs["detail"]:
+            bad.append("edge_path_to_ssa (merges)")
+        else:
+            ctx.count("edge:ids-identical-to-model" if norm(a["path"]) == norm(obs["ssa"])
+                      else "edge:ids-differ-from-model")
     ctx.traces += 1
     if bad:
         ctx.corr_broken("model and implementation disagree on: " + "; ".join(bad), case)
